@@ -42,7 +42,7 @@ LEVEL_TEXT = ("Partial proof. Theorems: every regenerated program (14 algorithms
               "2^(emin+p) <= max(|x|,|y|) <= Lmax/2 the run exists, no node overflows (forward refinement theorem + no-overflow lemmas) and the result is within 3.51 u of |z|. The accuracy clauses of the other 12 algorithms (16 ULP, "
               "no spurious NaN/inf/sign, 99.9 % design-target rates) are decided by search only: boundary-targeted, log-uniform and special-lattice inputs "
               "against an independent Ziv-style mpmath reference, on the repo's own generated NumPy implementation of the expanded graph.")
-LEVEL_NOTE = "ULP bounds and rates: search only, except complex square and complex absolute (theorems over Q, normal range, absent overflow). Model tie: 3-way bit-level correspondence incl. Lean softfloat evaluation with recorded libm values."
+LEVEL_NOTE = "ULP bounds and rates: search only, except complex square and complex absolute (theorems over Q and on bit patterns with no assumption about the run on explicit boxes: square_total_c64/c128, absolute_total_c64/c128; and for EVERY non-NaN x: |x +- i inf| = |+-inf + ix| = +inf, |x +- 0i| = |+-0 + ix| = |x| exactly: Props/C01AbsLimits.lean, C01AbsZero.lean). Model tie: 3-way bit-level correspondence incl. Lean softfloat evaluation with recorded libm values."
 TECHNIQUE = "translator-regenerated Lean programs (kernel-checked well-formedness) + 3-way correspondence + mpmath Ziv reference search"
 
 TARGET_ULP = {"sqrt": 4, "log1p": 4}
